@@ -53,13 +53,15 @@ def run_case(ctx, case):
     if max(ds) - min(ds) > 1e-6:
         rec.violation("returned parameters are not at the same distance", case, distances=ds)
     if p == 1 and W is None:
+        # (rational degree-1 curves are not in the guaranteed class: the problem is not piecewise linear in the parameter;
+        # for them the general conditions below are checked: self-projection of points on the curve, stationarity)
         o = drv.call("geom.nearest", list(Ue), [list(q) for q in Pe], None, pte)
         l3(rec, "geom.nearest")
         dmin = math.sqrt(float(o[1][0]))
         if abs(min(ds) - dmin) > 1e-7 * max(1.0, dmin) or max(ds) - dmin > 1e-6:
             rec.violation("returned distance is not the minimum over the interval", case, returned=ds, minimum=dmin, minimisers=ser(o[1][1]), parameters=ts)
             return
-    if c.get("label") == "oncurve" and min(ds) > 1e-6:
+    if c.get("label") in ("oncurve", "oncurve-rational") and min(ds) > 1e-6:
         rec.violation("a point on the curve is not projected onto itself", case, distance=min(ds), parameters=ts)
     # stationarity of interior non-knot parameters
     kf = [float(k) for k in knots]
@@ -126,7 +128,12 @@ def run(ctx):
             pt = [2 * b - a + F(1, 8) for a, b in zip(P[-2], P[-1])]
         else:
             pt = [F(rng.randint(-20, 20), 4) for _ in range(dim)]
-        run_case(ctx, ser(dict(kind="proj", label=label, U=U, P=P, W=None, pt=pt)))
+        Wp = None
+        if i % 4 == 1:
+            Wp = [F(rng.randint(1, 8), rng.randint(1, 3)) for _ in P]       # rational polyline: unequal positive weights
+            if len(set(Wp)) == 1:
+                Wp[0] += 1
+        run_case(ctx, ser(dict(kind="proj", label=label + ("-rational" if Wp else ""), U=U, P=P, W=Wp, pt=pt)))
     for i in range(budget(ctx, 20, 200)):
         # single-span curves that clean() could simplify: the projection must leave the caller's object alone
         cu, kind = reducible_bezier(rng, 2)
